@@ -5,6 +5,7 @@ import (
 	"math"
 	"os"
 	"strings"
+	"time"
 
 	"github.com/scottyw/tetromino/gameboy/audio"
 	"github.com/scottyw/tetromino/gameboy/controller"
@@ -225,6 +226,50 @@ func (p *apuRun) do(op string) string {
 				return "bad-op"
 			}
 			return p.measure(ch, atoi(w[2]), atoi(w[3]))
+		case w[0] == "stall" && len(w) == 2:
+			// a FRESH sound unit with tiny output channels and a consumer that keeps up except for one pause of
+			// 400 ms: every sample of the n machine cycles must still arrive (the producer waits, nothing is lost)
+			n := atoi(w[1])
+			l, r := make(chan float32, 4), make(chan float32, 4)
+			a := audio.New(l, r)
+			var L, R apuAcc
+			stop := make(chan struct{})
+			fin := make(chan struct{})
+			take := func(x float32, acc *apuAcc) {
+				k := math.Round(float64(x) * apuD)
+				acc.n++
+				acc.ck = acc.ck*16777619 + uint32(k) + 1
+			}
+			go func() {
+				defer close(fin)
+				paused := false
+				for {
+					select {
+					case x := <-l:
+						take(x, &L)
+					case x := <-r:
+						take(x, &R)
+					case <-stop:
+						for len(l) > 0 {
+							take(<-l, &L)
+						}
+						for len(r) > 0 {
+							take(<-r, &R)
+						}
+						return
+					}
+					if !paused && L.n >= 50 {
+						paused = true
+						time.Sleep(400 * time.Millisecond)
+					}
+				}
+			}()
+			for j := 0; j < n; j++ {
+				a.EndMachineCycle()
+			}
+			close(stop)
+			<-fin
+			return fmt.Sprintf("%02x %d %d %08x %08x", a.ReadNR52(), L.n, R.n, L.ck, R.ck)
 		case w[0] == "tk" && len(w) == 2:
 			var t uint64
 			if _, err := fmt.Sscanf(w[1], "%x", &t); err != nil {
@@ -548,6 +593,25 @@ func (g *apuGenSt) fadeRetriggerCase(ch, nrx2v int) {
 	g.p.c.class(fmt.Sprintf("faderetrig/ch%d/%02x/%s", ch, nrx2v, after))
 }
 
+// channel 1 with sweep period 0 ("no sweep") and a shift: the frequency must stay put and the channel on for as long
+// as one cares to wait (the sweep timer is reloaded with 8 when the period is 0 - it must not turn into a period)
+func (g *apuGenSt) sweepZeroPeriodCase(nr10, f int, retrig bool) {
+	g.reset(3)
+	g.w(0xff10, nr10)
+	g.w(0xff12, 0xf0)
+	g.w(0xff13, f&0xff)
+	g.w(0xff14, 0x80|f>>8)
+	for j := 0; j < 24; j++ {
+		g.c(32768)
+		g.r(0xff10)
+		if retrig && j == 10 {
+			g.w(0xff14, 0x80|f>>8)
+		}
+	}
+	g.p.do("st")
+	g.p.c.class(fmt.Sprintf("sweep0/%02x/%03x/%v", nr10, f, retrig))
+}
+
 // directed retrigger test (C19): let the length counter expire, then trigger again with length
 // still enabled in the first (odd) or second (even) half of a frame-sequencer period: the expired
 // counter is reloaded with 64/256, less one in the first half; observed through the expiry time
@@ -819,6 +883,10 @@ func apuGen(c *ctx) {
 			}
 			c.class(fmt.Sprintf("live-readback/%d", k))
 		}
+		for _, nr10 := range []int{0x01, 0x09} {
+			g.sweepZeroPeriodCase(nr10, 0x400, false)
+			g.sweepZeroPeriodCase(nr10, 0x500, true)
+		}
 		// NRx4 written with the length-enable bit in every frame-sequencer phase with the counter at 1, 2 and full:
 		// the read-back shows the bit just written whatever the extra length clock did
 		for ch := 1; ch <= 4; ch++ {
@@ -877,6 +945,10 @@ func apuGen(c *ctx) {
 			g.retriggerCase(ch, false)
 		}
 		c.notes["retrigger_cases"] = 8
+		for _, nr10 := range []int{0x01, 0x02, 0x09, 0x07} {
+			g.sweepZeroPeriodCase(nr10, 0x400, false)
+			g.sweepZeroPeriodCase(nr10, 0x500, true)
+		}
 		for ch := 1; ch <= 4; ch++ {
 			for _, base := range []int{2048, 4096, 6144, 8192, 16384} {
 				for d := -3; d <= 2; d++ {
@@ -977,6 +1049,9 @@ func apuGen(c *ctx) {
 			}
 			c.class(fmt.Sprintf("mixer-sweep/%x", chans))
 		}
+		// a consumer that stalls once: the producer waits, no sample is dropped
+		p.do("stall 4000")
+		c.class("stall")
 		// off / detached: no samples
 		for _, att := range []int{0, 1, 2, 3} {
 			g.reset(att)
